@@ -3,8 +3,12 @@ package csched
 import (
 	"fmt"
 	"testing"
+	"time"
+
+	res "github.com/jirenius/go-res"
 
 	"verifharness/internal/evid"
+	"verifharness/internal/fakeconn"
 )
 
 // scripted runs a case whose release ops name the point to release ("rel:<point>").
@@ -51,4 +55,34 @@ func TestRegressPublishOnStoppedService(t *testing.T) {
 	}
 	evid.ReportKnown(t, "C03", "C03-nil-connection-after-shutdown", msg != "", msg, map[string]interface{}{"trace": out.Trace})
 	evid.For("C03").Case(true, evid.Hash("regress-nilconn"), "regress")
+}
+
+// TestRegressFailedStartLeavesServiceStopped: Serve fails on ValidateListeners (an event
+// listener on a pattern without handler); with the handler added, Serve must work.
+func TestRegressFailedStartLeavesServiceStopped(t *testing.T) {
+	msg := ""
+	s := res.NewService("svc")
+	s.SetLogger(nil)
+	s.Handle("g", res.Call("do", func(r res.CallRequest) { r.OK(nil) }))
+	s.AddListener("late", func(*res.Event) {})
+	if err := s.Serve(fakeconn.New()); err == nil {
+		msg = "Serve with a listener on a pattern without handler returned nil"
+	} else {
+		s.Handle("late", res.Call("do", func(r res.CallRequest) { r.OK(nil) }))
+		served := make(chan struct{})
+		s.SetOnServe(func(*res.Service) { close(served) })
+		ret := make(chan error, 1)
+		go func() { ret <- s.Serve(fakeconn.New()) }()
+		select {
+		case <-served:
+			_ = s.Shutdown()
+			<-ret
+		case err := <-ret:
+			msg = fmt.Sprintf("after a Serve call that failed to start, Serve returns %v: the service is stuck in its starting state", err)
+		case <-time.After(20 * time.Second):
+			t.Fatalf("VERIF-INCONCLUSIVE: Serve neither served nor returned")
+		}
+	}
+	evid.ReportKnown(t, "C03", "C03-failed-start-stuck-starting", msg != "", msg, map[string]string{"steps": "AddListener(late); Serve -> error; Handle(late); Serve"})
+	evid.For("C03").Case(true, evid.Hash("regress-failedstart"), "regress")
 }
